@@ -227,6 +227,36 @@ theorem fallback_order (cfg : Config) (now : Nat) (up : Upstream) :
   cases cfg.hasUDP <;> cases cfg.hasTCP <;> simp [Builder.isDone]
   all_goals (cases (sendQueriesUDP {} now up.udp).b.v4done <;> cases (sendQueriesUDP {} now up.udp).b.v6done <;> simp)
 
+/-- **fallback_order, budgets.** Each transport arms its own `lookupTimeout` (Gen facts `udpOwnBudget`,
+`tcpOwnBudget`: the only deadlines of the package are the first statements of `sendQueriesUDP` and
+`sendQueriesTCP`). So a UDP phase that ends by timeout — upstream silent for the whole
+`lookupTimeout` — ends at `now + lookupTimeout`, and the TCP fallback then runs with a FRESH full
+budget (deadline `now + 2·lookupTimeout`): the result of the lookup is exactly the result of the TCP
+retry loop under that budget, i.e. the lookup fails only if TCP fails within its own budget. -/
+theorem tcp_fresh_budget_after_udp_timeout (cfg : Config) (now : Nat) (up : Upstream)
+    (hU : cfg.hasUDP = true) (hT : cfg.hasTCP = true)
+    (hto : (sendQueriesUDP {} now up.udp).why = .timeout) :
+    udpOwnBudget = true ∧ tcpOwnBudget = true ∧
+    (sendQueriesUDP {} now up.udp).now = now + lookupTimeout ∧
+    (sendQueries cfg now up).b =
+      (tcpLoop (now + lookupTimeout + lookupTimeout) tcpAttempts
+        { b := (sendQueriesUDP {} now up.udp).b, now := now + lookupTimeout } up.conns).b := by
+  have hnow : (sendQueriesUDP {} now up.udp).now = now + lookupTimeout := udpLoop_timeout_now _ _ _ hto
+  have hnd : (sendQueriesUDP {} now up.udp).b.isDone = false :=
+    udp_unfinished_unless_done _ up.udp { b := {}, now := now } rfl (by
+      have : (udpLoop (now + lookupTimeout) { b := {}, now := now } up.udp).why = .timeout := hto
+      rw [this]; intro h; cases h)
+  refine ⟨rfl, rfl, hnow, ?_⟩
+  unfold sendQueries
+  simp only [hU, hT, if_true, hnd, Bool.not_false, Bool.and_self, sendQueriesTCP, hnow]
+
+/-- UDP silent for the whole lookup timeout, TCP answers both queries: the lookup succeeds, 20 s late. -/
+def silentUdpUp : Upstream := { udp := [.silence], conns := f11Up.conns }
+
+example : (sendQueries { hasUDP := true, hasTCP := true, cap := 4 } 0 silentUdpUp).b.isDone = true ∧
+    (sendQueries { hasUDP := true, hasTCP := true, cap := 4 } 0 silentUdpUp).now = lookupTimeout := by decide
+
+
 /-! ### Malformed responses -/
 
 
@@ -317,7 +347,8 @@ theorem answers_only_conc (cfg : Config) (acts : List Act) :
 
 /-- the Gen facts the concurrent model and the pointer-level cache model stand on (GEN-BROKEN, i.e. a
 broken tie, if the source has another shape) -/
-theorem gen_shapes : lookupProbeIsGet = true ∧ lookupStoreIsSetByName = true ∧ insertAllocatesFreshNode = true := by
+theorem gen_shapes : lookupProbeIsGet = true ∧ lookupStoreIsSetByName = true ∧ insertAllocatesFreshNode = true ∧
+    udpOwnBudget = true ∧ tcpOwnBudget = true ∧ answerTTLBeforeBody = true := by
   decide
 
 end SSV.C17
@@ -331,6 +362,7 @@ end SSV.C17
 #print axioms SSV.C17.stale_only_on_failure
 #print axioms SSV.C17.udp_unfinished_unless_done
 #print axioms SSV.C17.fallback_order
+#print axioms SSV.C17.tcp_fresh_budget_after_udp_timeout
 #print axioms SSV.C17.malformed_never_completes
 #print axioms SSV.C17.no_poison
 #print axioms SSV.C17.answers_only
